@@ -14,7 +14,7 @@ RULE = ('Evaluation = one table row (slice/group/layer) recounted from the per-h
         '(rows, parameters, which, set id).')
 ASSUMPTIONS = ['membership of a hit in a set is read from the per-hit id columns of CeiloChunk.data',
                'exact half-okta ties accept both neighbours (documentation and numpy rounding disagree there)']
-REQUIRED = ['multi_hit_measurement_in_set', 'coincident_stamps_2ceilos', 'n_eq_MAX_HITS_OKTA0',
+REQUIRED = ['fam:keys', 'fam:refdata', 'multi_hit_measurement_in_set', 'coincident_stamps_2ceilos', 'n_eq_MAX_HITS_OKTA0',
             'holes_eq_MAX_HOLES_OKTA8', 'half_okta_tie'] + ['okta%d' % i for i in range(9)]
 TMAX = {'quick': 13, 'thorough': 40}
 EXHAUSTIVE = {'quick': 'all (count, total) pairs with total <= 13 x 9 buffer settings (engineered part only)',
@@ -27,6 +27,12 @@ def plan(tier, seed):
     for i in range(SIZES[tier]):
         out.append({'fam': 'generic', 's': seed, 'p': NUM, 'i': i,
                     'k': {'big': i % 9 == 0, 'rich': i % 2 == 0}})
+    nref = 17 * (2 if tier == 'quick' else 24)
+    for i in range(nref):        # real-world reference scenes of the repository (perturbed), random parameters
+        out.append({'fam': 'refdata', 's': seed, 'p': NUM, 'i': 700000 + i,
+                    'k': {'file': i % 17, 'perturb': (i // 17) % 5, 'default_prms': i < 17}})
+    for i in range(12 if tier == 'quick' else 200):
+        out.append({'fam': 'keys', 's': seed, 'p': NUM, 'i': 800000 + i})
     j = 0
     for T in list(range(1, TMAX[tier] + 1)) + ([16, 32] if tier == 'quick' else [48, 64, 80]):   # 16 | T: exact half-okta ties
         for o0 in (0, 1, 3):
@@ -112,10 +118,39 @@ def check_ct(desc):
             'counters': {'runs': T + 1, 'monotone_chains': 1}, 'sample': sample}
 
 
+def keys_case(desc):
+    """(ceilo, dt) keys that are easy to confuse: names that are prefixes of one another with numeric
+    remainders and non-negative integer time stamps ("1"+"12.0" vs "11"+"2.0"), and time stamps of one
+    instrument that differ by far less than a microsecond."""
+    rng = scenes.rng_for(desc['s'], NUM, desc['i'])
+    rows = []
+    if desc['i'] % 2 == 0:
+        names = ['1', '11', '111', '2', '12', '21'][:int(rng.integers(2, 7))]
+        for c in names:
+            for t in range(int(rng.integers(8, 25))):
+                if rng.uniform() < 0.7:
+                    rows.append([c, float(t), 1000.0 + float(rng.integers(0, 30)), 1])
+                else:
+                    rows.append([c, float(t), float('nan'), 0])
+    else:
+        names = ['a', 'b']
+        step = float(rng.choice([2e-7, 1e-8, 3e-9]))
+        for ci, c in enumerate(names):
+            for t in range(int(rng.integers(10, 30))):
+                dt = -100.0 * ci - t * step
+                if rng.uniform() < 0.75:
+                    rows.append([c, dt, 1500.0 + float(rng.integers(0, 30)), 1])
+                else:
+                    rows.append([c, dt, float('nan'), 0])
+    rows = scenes.order_rows(rng, scenes.dedupe(rows), str(rng.choice(scenes.ORDERS)))
+    sc = {'rows': rows, 'names': names, 'order': 'mixed', 'fam': 'keys'}
+    return {'scene': sc, 'prm': {'call': {'MAX_HITS_OKTA0': int(rng.choice([0, 3])), 'MAX_HOLES_OKTA8': int(rng.choice([0, 1]))}, 'glob': {}}}
+
+
 def check(desc):
     if desc['fam'] == 'ct':
         return check_ct(desc)
-    case = pipeline.materialise(desc)
+    case = keys_case(desc) if desc['fam'] == 'keys' else pipeline.materialise(desc)
     run = pipeline.execute(case, msgs=False)
     res = {'evals': 0, 'nontrivial': [], 'counters': {'runs': 1}, 'case': case, 'viol': []}
     if run.exc is not None:
@@ -132,7 +167,7 @@ def check(desc):
                 res['nontrivial'].append(obs.case_hash(pipeline.case_digest(case), w, int(cid)))
     viol += [b for b in run.rec.broken if b['prop'] == 'C03']
     res['viol'] = viol[:20]
-    res['tags'] = sorted(tags) + ['fam:generic']
+    res['tags'] = sorted(tags) + ['fam:' + desc['fam']]
     if desc['i'] % 101 == 0:
         res['sample'] = pipeline.small_sample(case, {'layers': run.chunk.layers[['n_hits', 'perc', 'okta', 'code']].to_dict('records'),
                                                      'total_measurements': int(run.chunk.max_hits_per_layer)})
